@@ -25,11 +25,19 @@ R = Registry(
         "does, or is loudly unavailable; in-place operators return self; for every overridden OrderingList mutator a "
         "small-scope model (lists of 0..3, every int index in [-(n+2), n+2], both reorder_on_append settings), obtained by "
         "abstract execution of the method's own AST with Python's list semantics, ends with position == index for every "
-        "element (negative/out-of-range indexes and partial renumbering included); whole-collection assignment to an "
-        "association proxy removes old-only keys, creates new-only keys and keeps -- for dicts re-assigns -- the common ones."
+        "element (negative/out-of-range indexes, partial renumbering and -- where the instrumented wrapper hands them on: "
+        "__delitem__ -- slices with negative bounds / steps included); whole-collection assignment to an "
+        "association proxy removes old-only keys, creates new-only keys and keeps -- for dicts re-assigns -- the common ones; "
+        "every mutator of _AssociationSet/_AssociationList/_AssociationDict, executed from its own source over a model of the "
+        "underlying collection + creator/getter/setter, leaves exactly the proxied values the builtin set/list/dict holds after the "
+        "same call (iterables with repeats, several iterables, out-of-range indexes, slices, defaults), raises the same exception "
+        "and returns the same value."
     ),
     not_decided=(
-        "persisted rows; index arithmetic of slice assignment (value level); the ordering function itself; "
+        "persisted rows; OrderingList slice ASSIGNMENT (the instrumented wrapper decomposes it into int-index calls, the "
+        "override's own slice branch is only entered on a never-instrumented OrderingList); the instrumented collection underneath "
+        "an association proxy (assumed to behave as the builtin: C38-R12's business); proxy arguments that are the proxy itself; "
+        "lists longer than 3; the ordering function itself; "
         "reorder_on_append=False semantics for pre-numbered entities; scalar association proxies; list lengths > 3 "
         "and custom ordering functions in the position model (count_from_0 is modelled; sort is modelled as a reversal; "
         "calls on objects other than the list are assumed effect-free); a construct outside the modelled Python subset "
@@ -1746,12 +1754,9 @@ R.mutant("aplist-pop-defaults-to-first-element", AP,
          sub("    def pop(self, index: int = -1) -> _T:\n        return self.getter(self.col.pop(index))\n",
              "    def pop(self, index: int = 0) -> _T:\n        return self.getter(self.col.pop(index))\n"), "C50-R5")
 R.mutant("aplist-remove-deletes-every-occurrence", AP,
-         sub("            if val == value:\n                del self.col[i]\n                return\n        raise ValueError(\"value not in list\")\n",
-             "            if val == value:\n                del self.col[i]\n                found = True\n        if not found:\n            raise ValueError(\"value not in list\")\n"
-             ).__class__ and chain(
-             sub("        for i, val in enumerate(self):\n            if val == value:\n                del self.col[i]\n                return\n        raise ValueError(\"value not in list\")\n",
-                 "        found = False\n        for i, val in reversed(list(enumerate(self))):\n            if val == value:\n                del self.col[i]\n                found = True\n"
-                 "        if not found:\n            raise ValueError(\"value not in list\")\n")), "C50-R5")
+         sub("        for i, val in enumerate(self):\n            if val == value:\n                del self.col[i]\n                return\n        raise ValueError(\"value not in list\")\n",
+             "        found = False\n        for i, val in reversed(list(enumerate(self))):\n            if val == value:\n                del self.col[i]\n                found = True\n"
+             "        if not found:\n            raise ValueError(\"value not in list\")\n"), "C50-R5")
 R.mutant("apdict-setdefault-overwrites-present-key", AP,
          sub("        if key not in self.col:\n            self.col[key] = self._create(key, default)\n            return default  # type: ignore[return-value]\n        else:\n            return self[key]\n",
              "        self[key] = default  # type: ignore[assignment]\n        return default  # type: ignore[return-value]\n"), "C50-R5")
